@@ -122,6 +122,9 @@ def record_case(cid, T, ops, mods, seed, origin='tlc', shuffle=True, exotic=True
     tmpdir = tempfile.mkdtemp(prefix='vf_tf_')
     for o in ops:
         o = norm_op(o)
+        # words of terminal-file rows are atoms like the words of the tree: the file carries the concrete strings
+        for r in o['rows']:
+            r['word'] = atoms.conc(r['word'], 'word') if r['word'] != '' else r['word']
         ev = {'a': o['name'], 'args': {'relc': list(o['relc']),
                                        'bare': 'T' if o['bare'] else 'F',
                                        'pos': o['pos'], 'preset': o['preset'],
